@@ -79,6 +79,24 @@ func crawlProp(level, rule string, q, th int, o scen.CrawlOpts) *propDef {
 		}}
 }
 
+var compAssumptions = []string{
+	"interleavings are explored at the granularity of the hook points inside the component plus the simulated clients' call boundaries",
+	"a clean batch is evidence over the seeds explored, not proof",
+}
+
+func compCases(prop, comp string, children, iters int, seed uint64, extra map[string]string) []*Case {
+	var cases []*Case
+	for i := 0; i < children; i++ {
+		ex := map[string]string{"engine": "comp", "comp": comp, "iters": fmt.Sprint(iters)}
+		for k, v := range extra {
+			ex[k] = v
+		}
+		sc := &scen.Scenario{Name: "comp-" + comp, Prop: prop, Extra: ex, Site: map[string]*scen.Resource{}}
+		cases = append(cases, &Case{Idx: len(cases), Seed: mix(seed, uint64(7000+i)), Scenario: sc, Label: "comp-" + comp})
+	}
+	return cases
+}
+
 const crawlRule = "one case = one generated scenario (Zeno configuration, simulated web site, queue contents, fault plan) run under one seeded schedule; distinct = distinct SHA-256 of the canonical event log; non-trivial = at least one injected fault fired, or >= 2 HTTP exchanges, or > 30 scheduler decisions"
 
 var props = map[string]*propDef{}
@@ -101,5 +119,23 @@ func init() {
 	props["C17"] = crawlProp("exploration", crawlRule+"; at idle and after stop the metrics (total URLs crawled, finished seeds, worker gauges, mean response time) are compared with ground truth counted from hook events", 200, 6000, scen.CrawlOpts{Prop: "C17", MinSeeds: 1, MaxSeeds: 8, Faults: true, Hops: true})
 	props["C08"] = crawlProp("exploration", crawlRule+"; every seen-store check is judged against a reference model of completed records (stamped with scheduler steps)", 200, 6000, scen.CrawlOpts{Prop: "C08", MinSeeds: 2, MaxSeeds: 8, Faults: false, Hops: true, Adversarial: true})
 	props["C09"] = crawlProp("exploration", crawlRule+"; every canonical URL that flows through a crawl is re-rendered under other map-iteration orders, re-normalised and shape-checked", 200, 6000, scen.CrawlOpts{Prop: "C09", MinSeeds: 2, MaxSeeds: 8, Hops: true, Adversarial: true})
+	props["C12"] = &propDef{level: "exploration", assumptions: compAssumptions, quickRuns: 32, thorRuns: 600,
+		components: map[string]string{"internal/pkg/reactor": "real code with hook points (build tag verif)", "producers, consumers, freeze controller": "simulated client actors", "scheduler, select tie-breaks": "owned by the simulator"},
+		rule:       "one case = one bubble: 1-5 tokens, 1-3 producers, 1-3 consumers (answering each delivered seed with finish, repeated finish, feedback, or feedback for an unknown id), optional freeze at a scheduled point; all operations, schedule decisions and select tie-breaks drawn from one tape; distinct = distinct event-log hash; every case interleaves >= 2 actors, so all count as non-trivial",
+		planFn: func(p *propDef, tier string, seed uint64, n int) []*Case {
+			return compCases("C12", "reactor", n, 150, seed, nil)
+		}}
+	props["C14"] = &propDef{level: "exploration", assumptions: compAssumptions, quickRuns: 32, thorRuns: 600,
+		components: map[string]string{"internal/pkg/controler/pause": "real code with hook points", "subscribers": "simulated workers with the shape of the stage worker loops (the real loops run in the pipeline engine, where C03's stop/pause enumeration exercises them)", "controllers (disk watchdog, WARC-queue watchdog, operator)": "simulated actors issuing matched and unmatched Pause/Resume sequences", "scheduler, select tie-breaks": "owned by the simulator"},
+		rule:       "one case = one bubble: 1-5 subscribers (some exiting early), 1-3 independent controllers each running a script over {pause, resume} (matched, repeated, unmatched), a feeder offering work, then shutdown; all choices from one tape; distinct = distinct event-log hash; all cases interleave >= 3 actors",
+		planFn: func(p *propDef, tier string, seed uint64, n int) []*Case {
+			return compCases("C14", "pause", n, 150, seed, nil)
+		}}
+	props["C13"] = &propDef{level: "exploration", assumptions: append([]string{"the window bound is evaluated on release instants of the fake clock with an absolute tolerance of 1e-6 tokens (the limiter accumulates float64 tokens)", "per-host state is only checked while the host keeps its bucket: runs of the class 'evict' (more hosts than buckets, short clean-up period) are explored for crashes/hangs only"}, compAssumptions...), quickRuns: 32, thorRuns: 600,
+		components: map[string]string{"internal/pkg/archiver/ratelimiter": "real code with hook points, real time package on the synctest fake clock", "waiters / reporters": "simulated actors"},
+		rule:       "one case = one bubble: capacity in {1,2,5,20,150}, configured rate in {0.05..50}/s, 1-3 hosts, 1-4 concurrent waiters doing sequences of acquire / failure(429,403,408,425,500,503) / success with gaps from 0 to 10 simulated minutes, plus a class with failure streaks of 30-80; distinct = distinct event-log hash",
+		planFn: func(p *propDef, tier string, seed uint64, n int) []*Case {
+			return compCases("C13", "ratelimiter", n, 60, seed, nil)
+		}}
 	_ = fmt.Sprint
 }
